@@ -53,10 +53,31 @@ def site_ok(s):
     return s.origin in (FRESH, IMMUT, "self-field-in-init")
 
 
+def _container_name(src):
+    """base container of a store/mutating-call target text: `D[k]`, `D.clear`, `cls.D[k]` -> D"""
+    try:
+        e = ast.parse(src, mode="eval").body
+    except SyntaxError:
+        return None
+    while isinstance(e, (ast.Subscript, ast.Call)):
+        e = e.value if isinstance(e, ast.Subscript) else e.func
+    from ..memo import MUTATORS
+    if isinstance(e, ast.Attribute) and e.attr in MUTATORS:
+        e = e.value               # D.clear -> D
+    if isinstance(e, ast.Subscript):
+        e = e.value
+    if isinstance(e, ast.Name):
+        return e.id
+    if isinstance(e, ast.Attribute) and isinstance(e.value, ast.Name):
+        return e.attr             # cls.D -> D
+    return None
+
+
 def analyse(repo):
     """returns (list of (construct, key, where, detail) findings, stats)"""
     E = Effects(repo)
     findings = []
+    memo_ok = []
     stats = {"store_sites": len(E.sites), "functions": len(E.funcs), "calls_resolved": len(E.calls)}
     # ---- R1 stores
     for s in E.sites:
@@ -66,6 +87,14 @@ def analyse(repo):
         if s.origin in (PARAM, SELF):
             # deferred: decided with the interprocedural summaries below
             continue
+        if s.origin in (MODULE, CLASS):
+            nm = _container_name(s.target_src)
+            if nm is not None:
+                from ..memo import transparent_memo
+                okm, why = transparent_memo(repo, s.func, nm)
+                if okm:
+                    memo_ok.append((q, s.key(), s.where, why))
+                    continue
         findings.append(("R1", q, s.key(), s.where,
                          f"{s.kind} to `{s.target_src}`: the object written is {s.origin} (not allocated in this activation)"))
     # parameter mutation: violation for public functions, and for helpers unless every call site passes a fresh object
@@ -192,6 +221,7 @@ def analyse(repo):
     for m in repo.modules.values():
         for c in m.classes.values():
             pass
+    stats["memo_ok"] = memo_ok
     return findings, stats, E
 
 
@@ -234,6 +264,8 @@ def run(chk, repo, tier):
             continue
         seen.add((r, q, k))
         chk.ob(f"C20.{r}", q, k, False, d, w)
+    for q, k, w, why in stats.pop("memo_ok"):
+        chk.ob("C20.R1", q, k, True, "transparent memo table (only this function reads and writes it): " + why, w)
     for s in E.sites:
         if site_ok(s):
             chk.ob("C20.R1", s.func.qualname, s.key() + f" @{norm_stmt(s.node)[:60]}", True, "", s.where,
